@@ -239,6 +239,11 @@ def offset_rules(facts, rep):
             clo = facts.closures_of(gd)
             clo_ok = any(any(callee_matches(t, r"checked_sub$") for _, t in c.calls()) for c in clo)
             good = good and (clo_ok or len(subs) >= 2)
+            if not good and len(subs) == 1 and ao[0] == "bin" and ao[1] == "Sub" and ".central_directory_offset" in tokens(ao[3]) and \
+                    ".central_directory_size" in tokens(ao[2]) and "cde_start_pos" in show(ao[2]):
+                # the second subtraction written plainly under its own guard:  Some(s) if s >= offset => s - offset
+                fs_ = dominating_facts(gd, ex, bi)
+                good = any((x[0] == "Ge" and x[1] == ao[2] and x[2] == ao[3]) or (x[0] == "Le" and x[1] == ao[3] and x[2] == ao[2]) for x in fs_)
             good = good and ds[0] == "bin" and ds[1] == "Add" and ".central_directory_offset" in tokens(ds) and any(x == ao for x in walk(ds))
             good = good and ".number_of_files_on_this_disk" in tokens(cnt) or (good and ".number_of_files" in tokens(cnt))
             ok &= rep.check(bool(good), rule, "plain-path", where(gd, s["span"]),
